@@ -31,6 +31,9 @@ type listCfg struct {
 	Mtx  bool   `json:"mutex,omitempty"`
 	Pol  bool   `json:"push_policy,omitempty"`
 	Deco bool   `json:"decorated,omitempty"`
+	// Prefill: the machine starts from a stack that already holds this many elements (the long regime:
+	// every operation of the alphabet, to a small depth, around a long stack)
+	Prefill int `json:"prefill,omitempty"`
 }
 
 func (c listCfg) String() string {
@@ -43,6 +46,9 @@ func (c listCfg) String() string {
 	}
 	if c.Deco {
 		s += " decorated"
+	}
+	if c.Prefill > 0 {
+		s += fmt.Sprintf(" prefilled=%d", c.Prefill)
 	}
 	return s
 }
@@ -79,7 +85,16 @@ func (c listCfg) build() *listInst {
 	if c.Deco {
 		decorate(s).SetErr(errCat).SetValidityPolicy(func(...any) error { return errCat })
 	}
-	return &listInst{s: s, m: m}
+	in := &listInst{s: s, m: m}
+	if c.Prefill > 0 {
+		vals := make([]any, c.Prefill)
+		for i := range vals {
+			vals[i] = in.fresh()
+		}
+		s.Push(vals...)
+		m.push(vals...)
+	}
+	return in
 }
 
 type listOp struct {
@@ -194,6 +209,54 @@ func c01Ops(maxL int) []listOp {
 			return ""
 		}})
 	}
+	// positions relative to the current length, and drains (one operation = many Pops, each compared)
+	for _, rel := range []struct {
+		n string
+		f func(L int) int
+	}{{"Len-1", func(L int) int { return L - 1 }}, {"Len/2", func(L int) int { return L / 2 }}} {
+		rel := rel
+		nonEmpty := func(in *listInst, _ int) bool { return len(in.m.items) > 3 }
+		ops = append(ops, listOp{"Remove(" + rel.n + ")", 0, nonEmpty, func(in *listInst) string {
+			i := rel.f(len(in.m.items))
+			gv, gok := in.s.Remove(i)
+			wv, wok := in.m.remove(i)
+			if gv != wv || gok != wok {
+				return fmt.Sprintf("Remove(%d) returned (%s,%v) want (%s,%v)", i, show(gv), gok, show(wv), wok)
+			}
+			return ""
+		}}, listOp{"Replace(x," + rel.n + ")", 0, nonEmpty, func(in *listInst) string {
+			x, i := in.fresh(), rel.f(len(in.m.items))
+			if got, want := in.s.Replace(x, i), in.m.replace(x, i); got != want {
+				return fmt.Sprintf("Replace(%v,%d) returned %v want %v", x, i, got, want)
+			}
+			return ""
+		}}, listOp{"Swap(0," + rel.n + ")", 0, nonEmpty, func(in *listInst) string {
+			i := rel.f(len(in.m.items))
+			in.s.Swap(0, i)
+			in.m.swap(0, i)
+			return ""
+		}})
+	}
+	for _, dr := range []struct {
+		n    string
+		keep func(L int) int
+	}{{"Pop until half is left", func(L int) int { return L / 2 }}, {"Pop until a fifth is left", func(L int) int { return L / 5 }}, {"Pop until one is left", func(L int) int { return 1 }}} {
+		dr := dr
+		ops = append(ops, listOp{dr.n, 0, func(in *listInst, _ int) bool { return len(in.m.items) > 5 }, func(in *listInst) string {
+			keep := dr.keep(len(in.m.items))
+			for len(in.m.items) > keep {
+				gv, gok := in.s.Pop()
+				wv, wok := in.m.pop()
+				if gv != wv || gok != wok {
+					return fmt.Sprintf("Pop (with %d left) returned (%s,%v) want (%s,%v)", len(in.m.items)+1, show(gv), gok, show(wv), wok)
+				}
+				if in.s.Len() != len(in.m.items) {
+					return fmt.Sprintf("after a Pop Len()=%d want %d", in.s.Len(), len(in.m.items))
+				}
+			}
+			return ""
+		}})
+	}
 	ops = append(ops, listOp{"Insert(nil,0)", 0, always, func(in *listInst) string {
 		if in.s.Insert(nil, 0) {
 			return "Insert(nil,0) returned true"
@@ -234,12 +297,21 @@ func c01Ops(maxL int) []listOp {
 
 func c01Machine(c *Ctx, cfg listCfg) *Machine[*listInst] {
 	ops := c01Ops(cfg.MaxL)
+	depth := 0
+	if cfg.Prefill > 0 {
+		ops = c01Ops(3) // absolute positions 0..2; the far end is addressed relative to the length
+		depth = 2
+		if !c.Quick() {
+			depth = 3
+		}
+	}
 	return &Machine[*listInst]{
-		Name:    "C01 " + cfg.String(),
-		New:     cfg.build,
-		NumOps:  len(ops),
-		OpName:  func(in *listInst, op int) string { return ops[op].name },
-		Enabled: func(in *listInst, op int) bool { return ops[op].enabled(in, cfg.MaxL) && in.s.Len() <= cfg.MaxL+3 },
+		Name:     "C01 " + cfg.String(),
+		New:      cfg.build,
+		MaxDepth: depth,
+		NumOps:   len(ops),
+		OpName:   func(in *listInst, op int) string { return ops[op].name },
+		Enabled:  func(in *listInst, op int) bool { return ops[op].enabled(in, cfg.MaxL) && in.s.Len() <= cfg.MaxL+3 },
 		Apply: func(in *listInst, op int, check bool) []string {
 			var before, bkey string
 			if check {
@@ -295,15 +367,15 @@ func c01Configs(c *Ctx) []listCfg {
 						if cp > 0 {
 							ml = cp + 1 // growth is attempted on a full stack too: the model drops the surplus
 						}
-						out = append(out, listCfg{k, fifo, cp, neg, fwd, ml, false, false, false})
+						out = append(out, listCfg{k, fifo, cp, neg, fwd, ml, false, false, false, 0})
 						if neg == fwd {
-							out = append(out, listCfg{k, fifo, cp, neg, fwd, ml, neg, false, true})
+							out = append(out, listCfg{k, fifo, cp, neg, fwd, ml, neg, false, true, 0})
 						}
 						if !neg && !fwd {
 							// the same histories through the locking paths and the push-policy path
-							out = append(out, listCfg{k, fifo, cp, neg, fwd, ml, true, false, false}, listCfg{k, fifo, cp, neg, fwd, ml, true, true, false})
+							out = append(out, listCfg{k, fifo, cp, neg, fwd, ml, true, false, false, 0}, listCfg{k, fifo, cp, neg, fwd, ml, true, true, false, 0})
 							if !c.Quick() {
-								out = append(out, listCfg{k, fifo, cp, neg, fwd, ml, false, true, false})
+								out = append(out, listCfg{k, fifo, cp, neg, fwd, ml, false, true, false, 0})
 							}
 						}
 					}
@@ -311,9 +383,18 @@ func c01Configs(c *Ctx) []listCfg {
 			}
 		}
 	}
+	// the long regime: stacks that start out long (beyond any fixed scratch size, growth step or shrink
+	// threshold one might think of), every operation around them to depth 2 / 3, drains included
+	for i, n := range []int{9, 17, 33, 70, 130} {
+		if c.Quick() && n > 70 {
+			continue
+		}
+		out = append(out, listCfg{Kind: kindNames[i%5], FIFO: i%2 == 1, MaxL: n + 3, Prefill: n},
+			listCfg{Kind: kindNames[(i+2)%5], FIFO: i%2 == 0, Cap: n + 2, Neg: true, Fwd: true, MaxL: n + 3, Prefill: n, Mtx: i%2 == 0})
+	}
 	// capacities at the edge of int (the stored limit is k+1): the stack must simply never fill up
 	for _, cp := range []int{math.MaxInt, math.MaxInt - 1, 1 << 32} {
-		out = append(out, listCfg{"LIST", false, cp, false, false, 2, false, false, false}, listCfg{"OR", true, cp, true, true, 2, false, true, false})
+		out = append(out, listCfg{"LIST", false, cp, false, false, 2, false, false, false, 0}, listCfg{"OR", true, cp, true, true, 2, false, true, false, 0})
 	}
 	return out
 }
